@@ -132,17 +132,31 @@ Proof.
   eapply Forall_impl; [|apply fH_hex, Hv]. apply hexchar_not_cr.
 Qed.
 
+Lemma good_acc f : good f -> a_acc units single (f_uid f) = true.
+Proof. intros (_ & _ & Hval). rewrite a_validate_spec in Hval. now injection Hval. Qed.
+
+Lemma good_sf f : good f -> ascii_sf dec units single f.
+Proof. intros Hg. pose proof Hg as (Hwf & Hm & _). split; [exact Hwf|]. intros _. exact Hm. Qed.
+
+Lemma good_dls fs : Forall good fs -> flat_map (ascii_dls units single) fs = map (spec_delivery KAscii) fs.
+Proof.
+  induction 1 as [|f fs Hf _ IH]; [reflexivity|]. cbn [flat_map map]. unfold ascii_dls at 1.
+  rewrite (good_acc f Hf), IH. reflexivity.
+Qed.
+
 (* the valid traffic alone: everything is delivered, the receiver ends synchronised *)
 Lemma loop_W fuel h : (length W < fuel)%nat ->
-  exists ds, loop fuel units single {| a_buf := W; a_hdr := h |} = ({| a_buf := []; a_hdr := ahdr0 |}, ds, Done).
+  loop fuel units single {| a_buf := W; a_hdr := h |} =
+  ({| a_buf := []; a_hdr := ahdr0 |}, map (spec_delivery KAscii) (v :: vs), Done).
 Proof.
   intros Hf. destruct fuel as [|n]; [lia|]. unfold W in *.
   rewrite a_loop_frame by exact Hv.
   pose proof (adu_ascii_length v) as HL. rewrite app_length, HL in Hf.
   destruct n as [|n]; [lia|].
   rewrite <- (app_nil_r Wrest). unfold Wrest.
-  rewrite (a_loop_stream dec units single vs n [] [] Hvs (Forall_nil _)).
-  - eexists. reflexivity.
+  rewrite (a_loop_stream dec units single vs n [] []); [rewrite good_dls by exact Hvs; reflexivity| | | |].
+  - eapply Forall_impl; [|exact Hvs]. apply good_sf.
+  - constructor.
   - pose proof (a_stream_length_ge vs). unfold Wrest in Hf. lia.
   - now left.
 Qed.
@@ -153,7 +167,7 @@ Proof. rewrite a_ready_eq. cbn [a_buf]. rewrite app_length. pose proof W_len. li
 Theorem recover_loop : forall fuel X h st' ds o,
   (length (X ++ W) < fuel)%nat ->
   loop fuel units single {| a_buf := X ++ W; a_hdr := h |} = (st', ds, o) ->
-  o = Done -> a_buf st' = [] /\ a_hdr st' = ahdr0.
+  o = Done -> (a_buf st' = [] /\ a_hdr st' = ahdr0) /\ exists ds0, ds = ds0 ++ map (spec_delivery KAscii) (v :: vs).
 Proof.
   induction fuel as [|f IH]; intros X h st' ds o Hlen Hrun Hdone; [lia|].
   (* 1. only the part from the first ':' on matters *)
@@ -173,8 +187,8 @@ Proof.
   { rewrite app_length, skipn_length. rewrite app_length in Hlen. lia. }
   destruct Hshape as [E|(X2 & E)]; rewrite E in *; clear Hsame.
   { (* 2. the valid traffic is at the head *)
-    cbn [app] in *. destruct (loop_W (S f) h Hlen1) as (ds' & Hw). rewrite Hw in Hrun.
-    injection Hrun as <- _ _. split; reflexivity. }
+    cbn [app] in *. rewrite (loop_W (S f) h Hlen1) in Hrun.
+    injection Hrun as <- <- _. split; [split; reflexivity|]. exists []. reflexivity. }
   (* 3. the buffer is ':' X2 ++ W *)
   clear E Hs Hsk Hsl.
   cbn [a_loop] in Hrun. rewrite ready_XW in Hrun. rewrite a_check_eq in Hrun.
@@ -190,7 +204,7 @@ Proof.
   rewrite Hfind in Hrun. clear Hfind.
   set (buf := (COLON :: X2) ++ W) in *.
   assert (Hdrop : forall h', loop f units single (a_dropone ascii {| a_buf := buf; a_hdr := h' |}) = (st', ds, o) ->
-                  a_buf st' = [] /\ a_hdr st' = ahdr0).
+                  (a_buf st' = [] /\ a_hdr st' = ahdr0) /\ exists ds0, ds = ds0 ++ map (spec_delivery KAscii) (v :: vs)).
   { intros h' Hr. rewrite a_dropone_eq in Hr. cbn [a_buf] in Hr. rewrite pyfrom_nn in Hr by lia.
     change (Z.to_nat 1) with 1%nat in Hr. unfold buf in Hr. cbn [app skipn] in Hr.
     eapply (IH X2 ahdr0); [|exact Hr|exact Hdone]. unfold buf in Hlen1. cbn [app length] in Hlen1. lia. }
@@ -213,17 +227,21 @@ Proof.
         -- destruct (a_getframe ascii {| a_buf := buf; a_hdr := h' |}) as [frame|x]; [|injection Hrun as _ _ <-; discriminate].
            destruct (dec frame); try (injection Hrun as _ _ <-; discriminate).
            destruct (loop f units single (a_advance ascii {| a_buf := buf; a_hdr := h' |})) as [[s2 d2] o2] eqn:Er.
-           cbn [cons_da] in Hrun. injection Hrun as <- _ <-.
+           cbn [cons_da] in Hrun. injection Hrun as <- <- <-.
            rewrite a_advance_eq in Er. cbn [a_buf a_hdr] in Er. rewrite HL in Er. rewrite pyfrom_nn in Er by lia.
            replace (Z.to_nat (Z.of_nat e + 2)) with (e + 2)%nat in Er by lia.
            unfold buf in Er. rewrite skipn_app in Er.
            replace (e + 2 - length (COLON :: X2))%nat with 0%nat in Er by lia. cbn [skipn] in Er.
-           eapply (IH (skipn (e + 2) (COLON :: X2)) ahdr0); [|exact Er|exact Hdone].
+           destruct (IH (skipn (e + 2) (COLON :: X2)) ahdr0 _ _ _ ltac:(rewrite app_length, skipn_length; unfold buf in Hlen1; rewrite app_length in Hlen1; lia) Er Hdone)
+             as (Hsync & ds0 & Hds).
+           split; [exact Hsync|]. eexists (_ :: ds0). rewrite Hds. reflexivity.
+        -- (* unit not served: advanceFrame, scanning goes on behind the span *)
+           rewrite a_advance_eq in Hrun. cbn [a_buf a_hdr] in Hrun. rewrite HL in Hrun. rewrite pyfrom_nn in Hrun by lia.
+           replace (Z.to_nat (Z.of_nat e + 2)) with (e + 2)%nat in Hrun by lia.
+           unfold buf in Hrun. rewrite skipn_app in Hrun.
+           replace (e + 2 - length (COLON :: X2))%nat with 0%nat in Hrun by lia. cbn [skipn] in Hrun.
+           eapply (IH (skipn (e + 2) (COLON :: X2)) ahdr0); [|exact Hrun|exact Hdone].
            rewrite app_length, skipn_length. unfold buf in Hlen1. rewrite app_length in Hlen1. lia.
-        -- (* foreign unit: resetFrame *)
-           rewrite a_reset_eq in Hrun. destruct f as [|f']; cbn [a_loop] in Hrun.
-           ++ injection Hrun as _ _ <-. discriminate.
-           ++ injection Hrun as <- _ _. split; reflexivity.
         -- injection Hrun as _ _ <-. discriminate.
       * rewrite a_droptest_eq in Hrun. cbn [a_hdr] in Hrun. rewrite HL in Hrun.
         replace (Z.of_nat e =? 0) with false in Hrun by lia. cbn [negb] in Hrun. exact (Hdrop h' Hrun).
@@ -254,7 +272,7 @@ End Recover.
 Theorem ascii_recover dec c st (vs : list frame) st' ds o :
   vs <> [] -> Forall (valid_frame KAscii dec c) vs ->
   a_recv base lrc ascii dec c st (concat (map (spec_adu KAscii) vs)) = (st', ds, o) ->
-  o = Done -> a_sync st'.
+  o = Done -> a_sync st' /\ exists ds0, ds = ds0 ++ map (spec_delivery KAscii) vs.
 Proof.
   intros Hne Hv Hrun Hdone. destruct vs as [|v vs]; [now elim Hne|].
   assert (Hg : Forall (ascii_good dec (c_units c) (single_of (a_single_default ascii) c)) (v :: vs)).
